@@ -92,6 +92,7 @@ CLASSES = {
     # label / key / file-name like: printable, no grouping, escape, comment, parameter, brackets
     'HIDDEN': minus(R('!..~', 'À..ſ', ' '), '{}\\%#[]'),
     'COMMENT': R(' ..~', 'À..ſ', '\t'),
+    'ALPHA': R('a..z', 'A..Z'),
     # file-name / key like text without characters that form special sequences
     'NAME': R('a..z', 'A..Z', '0..9', 'À..Ö', 'Ø..ö', '.', '/', ':', '+', '=', ',', '!', '?'),
     'MATH': minus(R('!..~', ' ', 'α..ω'), '$\\%{}#&[]'),
